@@ -62,9 +62,12 @@ class Lexer:
 
             # Multi-line comment
             if ch == "/" and self._peek() == "*":
+                line, column = self.line, self.column
                 self._advance()  # /
                 self._advance()  # *
-                while self.pos < self.length:
+                while True:
+                    if self.pos >= self.length:
+                        raise JSSyntaxError("Unterminated comment", line, column)
                     if self._current() == "*" and self._peek() == "/":
                         self._advance()  # *
                         self._advance()  # /
@@ -433,13 +436,17 @@ class Lexer:
         pattern = []
         in_char_class = False
 
-        while self.pos < self.length:
+        while True:
+            if self.pos >= self.length:
+                raise JSSyntaxError("Unterminated regex literal", line, column)
             ch = self._current()
 
-            if ch == "\\" and self.pos + 1 < self.length:
+            if ch == "\\" and self._peek() not in ("", "\n"):
                 # Escape sequence - include both characters
                 pattern.append(self._advance())
                 pattern.append(self._advance())
+            elif ch == "\\":
+                raise JSSyntaxError("Unterminated regex literal", line, column)
             elif ch == "[":
                 in_char_class = True
                 pattern.append(self._advance())
